@@ -109,6 +109,13 @@ func (e *Engine) refine(st *State, cv AbsVal, cond ssa.Value, truth bool) {
 	case vErrAt:
 		nonNil := truth
 		off := cv.errOff
+		if cv.idx != nil {
+			if iv, ok := st.getv(cv.idx); ok && iv.k == vIdx && !nonNil && iv.ilo >= 0 && iv.safe < 1 {
+				iv.safe = 1
+				st.setv(cv.idx, iv)
+			}
+			return
+		}
 		if nonNil {
 			// the terminator is at relative coordinate <= off
 			switch {
@@ -946,13 +953,40 @@ func (e *Engine) callKnown(fi *fnInfo, st *State, in *ssa.Call, callee *ssa.Func
 				}
 			}
 		}
-		switch len(x.ret) {
+		ret := x.ret
+		if engDebug && callee.Name() == "isEOFAt" {
+			fmt.Fprintf(os.Stderr, "RET %s: %v args %v\n", callee.Name(), retString(ret), args)
+		}
+		for ri, rv := range ret {
+			if rv.idx == nil {
+				continue
+			}
+			// a value linked to a look-ahead index parameter of the callee: linked to the argument in the caller
+			var to ssa.Value
+			for pi, q := range callee.Params {
+				if ssa.Value(q) == rv.idx && pi < len(cc.Args) {
+					if av, ok := s.getv(cc.Args[pi]); ok && av.k == vIdx {
+						to = cc.Args[pi]
+					}
+				}
+			}
+			if ri == 0 {
+				ret = append([]AbsVal{}, ret...)
+			}
+			if to == nil && rv.k == vErrAt {
+				ret[ri] = top
+				continue
+			}
+			rv.idx = to
+			ret[ri] = rv
+		}
+		switch len(ret) {
 		case 0:
 			delete(s.vals, in)
 		case 1:
-			setRes(s, x.ret[0])
+			setRes(s, ret[0])
 		default:
-			s.setv(in, AbsVal{k: vTuple, elems: x.ret})
+			s.setv(in, AbsVal{k: vTuple, elems: ret})
 		}
 		if x.at != nil {
 			s.note("%s: %s returns %s", e.prog.Position(x.at.Pos()), callee.Name(), retString(x.ret))
@@ -1141,7 +1175,7 @@ func (e *Engine) primitive(fi *fnInfo, st *State, in *ssa.Call, callee *ssa.Func
 	switch callee.Name() {
 	case "Peek", "PeekRune":
 		j, ok := argInt(0)
-		if av := e.eval(st, args[0]); !ok && callee.Name() == "Peek" && (av.k == vIdx || av.k == vInt && len(av.ints) > 1) {
+		if av := e.eval(st, args[0]); !ok && (av.k == vIdx || av.k == vInt && len(av.ints) > 1) {
 			// look-ahead at an index variable
 			if av.k == vInt {
 				av = st.idxOfInts(av)
@@ -1150,6 +1184,12 @@ func (e *Engine) primitive(fi *fnInfo, st *State, in *ssa.Call, callee *ssa.Func
 			fwd := av.ihi <= 0 || av.safe >= 0
 			bwd := av.ilo >= 0 || av.back || -av.ilo <= st.P || -av.ilo <= st.Lmin
 			e.check(st, "R-CURSOR", label, pos, fwd && bwd, fmt.Sprintf("Peek(n) with n in [%s,%s]: %s", infs(av.ilo), infs(av.ihi), idxWhy(fwd, bwd)))
+			if callee.Name() == "PeekRune" {
+				// the rune at the index: its reported length never exceeds what remains when the byte at the index is input
+				rl := AbsVal{k: vRuneLen, idx: args[0], runeOK: av.ilo >= 0 && av.safe >= 1}
+				setRes(AbsVal{k: vTuple, elems: []AbsVal{top, rl}})
+				return []*State{st}
+			}
 			res := AbsVal{k: vByte, set: bsTop, idx: args[0]}
 			if av.ilo == av.ihi {
 				res.set, res.linked, res.coord = st.byteAt(av.ilo), true, av.ilo
@@ -1303,6 +1343,14 @@ func (e *Engine) primitive(fi *fnInfo, st *State, in *ssa.Call, callee *ssa.Func
 			var ok bool
 			off, ok = argInt(0)
 			if !ok {
+				if av := e.eval(st, args[0]); av.k == vIdx || av.k == vInt && len(av.ints) > 1 {
+					// the end-of-input test at a look-ahead index: no error there means the byte at the index is input
+					if av.k == vInt {
+						st.setv(args[0], st.idxOfInts(av))
+					}
+					setRes(AbsVal{k: vErrAt, idx: args[0]})
+					break
+				}
 				setRes(top)
 				break
 			}
